@@ -15,7 +15,7 @@ import Pog.Model.Registry
   generators/signature_generator                             `stdSig` (identifier = sanitised TWICE)
   generators/url_args_generator + request_generator          `buildStd`
   generators/overload_generator + endpoint_method_generator
-    ._generate_implementation_method                         `ovlSig`, `buildOvl`
+    ._generate_implementation_method                         `ovlParams`, `sigOf`, `ovlBody`, `buildOvl`
   types/strategies/response_strategy._get_primary_response   `primaryA`
   helpers/endpoint_utils._get_primary_response               `primaryB`
   response_strategy.ResponseStrategyResolver.resolve         `resolveStrategy`
@@ -275,10 +275,12 @@ def dedupStr : List Str → List Str → List Str
   | [], _ => []
   | x :: xs, seen => if x ∈ seen then dedupStr xs seen else x :: dedupStr xs (x :: seen)
 
-/-- Positional parameters of the implementation signature: `in` path/query/header only, sanitised ONCE,
-    no defaults (every one is required, whatever the spec says). -/
-def ovlPositional (ps : List GParam) : List Str :=
-  (ps.filter (fun p => p.loc = .path ∨ p.loc = .query ∨ p.loc = .header)).map (fun p => sanMethod p.name)
+/-- `overload_generator._operation_param_parts` (F12 repaired): the entries of `ordered_params` except the request body
+    parameter - declared parameters of every location, then the path variables without a parameter object; required
+    first; the identifier sanitised twice and `= None` for an optional one, as in the single-content signature. -/
+def ovlParams (op : Op) : List PInfo := (orderedParams op).filter (fun p => p.loc ≠ .body)
+
+def ovlPositional (op : Op) : List (Str × Bool) := (ovlParams op).map (fun p => (p.ident, p.required))
 
 def ovlKeywordOnly (media : List Str) : List Str := dedupStr (media.map ctParam) []
 
@@ -287,7 +289,7 @@ def contentTypeParam : Str := "content_type".toList
 /-- (identifier, required) of every parameter the emitted method accepts. -/
 def sigOf (op : Op) : List (Str × Bool) :=
   if isMulti op then
-    (ovlPositional op.params).map (·, true)
+    ovlPositional op
       ++ (ovlKeywordOnly ((op.body.map (·.media)).getD [])).map (·, false)
       ++ [(contentTypeParam, false)]
   else (orderedParams op).map (fun p => (p.ident, p.required))
@@ -851,6 +853,15 @@ def stdBody (op : Op) (args : GArgs) : Except CallErr BodyArg :=
       if isInfix mtMultipart mt then .error .nameError
       else .ok (mkBody .data (argVal args "bytes_content".toList))
 
+/-- The `self._transport.request(method, url, params=…, <body keyword>, headers=…[, cookies=…])` call with the dicts
+    `generate_url_and_args` wrote - the same for the single-content method and (F12 repaired) for every branch of the
+    implementation method for several media types. -/
+def sendRequest (op : Op) (args : GArgs) (pieces : List Piece) (b : BodyArg) : Except CallErr Request :=
+  if !headerValuesOk (stdHeaders op args) then .error .headerTypeError
+  else if !cookieValuesOk (stdCookies op args) then .error .cookieTypeError
+  else .ok { method := op.method, path := pieces, query := stdQuery op args, headers := stdHeaders op args, body := b,
+             cookies := stdCookies op args }
+
 /-- The single-content (or body-less) method: `generate_url_and_args` + `generate_request_call`. -/
 def buildStd (op : Op) (args : GArgs) : Except CallErr Request :=
   if !bindOk (sigOf op) args then .error .typeError else
@@ -859,11 +870,7 @@ def buildStd (op : Op) (args : GArgs) : Except CallErr Request :=
   | .ok pieces =>
     match stdBody op args with
     | .error e => .error e
-    | .ok b =>
-      if !headerValuesOk (stdHeaders op args) then .error .headerTypeError
-      else if !cookieValuesOk (stdCookies op args) then .error .cookieTypeError
-      else .ok { method := op.method, path := pieces, query := stdQuery op args, headers := stdHeaders op args, body := b,
-                 cookies := stdCookies op args }
+    | .ok b => sendRequest op args pieces b
 
 /-- The `if … is not None: … elif …` chain over the media types in spec order. -/
 def dispatchBody (args : GArgs) : List Str → Option BodyArg
@@ -875,19 +882,25 @@ def dispatchBody (args : GArgs) : List Str → Option BodyArg
     else if mt = mtMultipart then some (.files v)
     else some (.data v)
 
-/-- `_generate_implementation_method` for ≥ 2 request media types. -/
+/-- The body keyword of the implementation method for several media types: the branch of the runtime dispatch that is
+    taken; the final `else:` (F62 repaired) is `raise ValueError(…)` when the requestBody is required, else the call
+    without a body keyword. -/
+def ovlBody (op : Op) (args : GArgs) : Except CallErr BodyArg :=
+  match dispatchBody args ((op.body.map (·.media)).getD []) with
+  | none => if (op.body.map (·.required)).getD true then .error .valueError else .ok .none
+  | some b => .ok b
+
+/-- `_generate_implementation_method` for ≥ 2 request media types (F12 repaired): `generate_url_and_args` on the
+    parameters of `_operation_param_parts` (url, `params`, `headers`, `cookies` as in the single-content method), then
+    the runtime dispatch, every branch passing those dicts. -/
 def buildOvl (op : Op) (args : GArgs) : Except CallErr Request :=
   if !bindOk (sigOf op) args then .error .typeError else
   match urlPieces ((sigOf op).map (·.1)) args op.path with
   | .error e => .error e
   | .ok pieces =>
-    match dispatchBody args ((op.body.map (·.media)).getD []) with
-    | none =>
-      -- the final `else:` (F62 repaired): `raise ValueError(…)` when the requestBody is required, else the request
-      -- goes out without a body
-      if (op.body.map (·.required)).getD true then .error .valueError
-      else .ok { method := op.method, path := pieces, query := none, headers := none, body := .none }
-    | some b => .ok { method := op.method, path := pieces, query := none, headers := none, body := b }
+    match ovlBody op args with
+    | .error e => .error e
+    | .ok b => sendRequest op args pieces b
 
 /-- Awaiting the emitted method: either it fails before the transport is reached, or the transport is
     called exactly once with this request. -/
